@@ -88,8 +88,11 @@ func (checker *TimestampChecker) IsUpToDate(t *ast.Task) (bool, error) {
 		return false, nil
 	}
 
-	// Modify the metadata of the file to the the current time.
-	if !checker.dry {
+	// Record the time of the run that is about to start. The record of an
+	// up-to-date task stays as it is: it is the time of the last run, and a
+	// file that enters the sources later with an older modification time
+	// (moved in, restored from a backup) must still be compared with that
+	if !checker.dry && shouldUpdate {
 		if err := os.Chtimes(timestampFile, taskTime, taskTime); err != nil {
 			return false, err
 		}
